@@ -3,6 +3,7 @@ See notes/C20.md and DESIGN.md section 6 (C20)."""
 import json
 import os
 import re
+import math
 import struct
 import sys
 from fractions import Fraction
@@ -11,23 +12,40 @@ import common as c
 
 PID = "C20"
 MANIFEST = {
-    "text": "18 Coq theorems, 16 over ALL doubles, all library-oracle behaviours meeting stated hypotheses: the display "
+    "text": "38 Coq theorems, 16 over ALL doubles, all library-oracle behaviours meeting stated hypotheses: the display "
             "text matches the numeral grammar (sign, integer digits grouped in threes, fraction | mantissa e exponent | "
             "NaN/Infinity/-Infinity) for every valid double (shape hypotheses on {:.N}/{:.14e}/parse + coarse bounds on "
             "log10/powi; Flocq no-overflow proof); grouping/trimming/separator insertion change no value; integers in "
             "the standard range (< 2^53) are shown exactly with no oracle; no overflow panic; 15-significant-digit "
             "accuracy proved for every valid finite non-zero double (C20_accuracy) under explicit correctness "
             "specifications of the library calls (integers: error 0; scientific range: <= 1/2 unit; standard "
-            "non-integers, repaired code: <= 5/8 unit, Flocq real analysis) - it is PARTIAL in that the executable library models are tested (ORACLE streams), "
-            "not proved, against those specifications (C20_accuracy_full stays a Prop); model tied to the code by the "
+            "non-integers, repaired code: <= 5/8 unit, Flocq real analysis); the executable library models the DISPLAY "
+            "correspondence runs (fmt_prec_exec, fmt_exp14_exec, parse_f64_exec, powi_exec) are PROVED to satisfy those "
+            "specifications (C20_fmt_prec_model_shape/_value/_half_even/_accurate: {:.N} = round-half-even of the exact binary "
+            "expansion at N digits, every N; C20_e10_model_exact + C20_fmt_exp14_model_correct: {:.14e} = 15 correctly "
+            "rounded significant digits incl. carry, for valid doubles; C20_parse_model_nearest/_close: parse = IEEE "
+            "nearest-even of N/10^k, equal to C16's reference rn_decimal (C20_parse_model_is_C16_reference); "
+            "C20_powi_model_*), so the former Prop C20_accuracy_full is the theorem "
+            "C20_accuracy_exec (only hypothesis: log10_sane on libm's log10, shown satisfiable; the *_exec_pos variants "
+            "need it on positive arguments only - log10_sane_pos, which is what the real f64::log10 can meet and "
+            "what LOG10SANE evaluates: log10 of a negative number is NaN and the code only takes log10 of absolute "
+            "values) and "
+            "C20_accuracy_exact_library has no hypothesis (exact floor-log10 model); likewise well-formedness and "
+            "absence of panics for the executable model under log10_sane alone (C20_wellformed_exec, C20_total_exec; "
+            "summary C20_exec_complete); what stays trusted is that Rust's std/libm behave like these models (ORACLE "
+            "streams) and that libm's log10 satisfies log10_sane (LOG10SANE stream: the real f64::log10 at 10^k +- ulps "
+            "for every k and a seeded mix); model tied to the code by the "
             "DISPLAY correspondence (vm_compute vs Rust on bit patterns and boundaries); implementation-level "
             "exact-rational search of the property itself (found C20-F1, fixed in /repo 60da55e)",
     "note": "trusted: Coq kernel + vm_compute; hand transcription of format_display_number and helpers (validated by "
             "DISPLAY); library oracles log10/powi/{:.N}/{:.14e}/parse::<f64> are Section variables in the theorems "
             "(shape / correctness hypotheses stated in each theorem) and exact Z implementations when running "
-            "(validated by ORACLE streams; log10 by lookup of the real function's values); axioms: none for 13 "
+            "(validated by ORACLE streams; log10 by lookup of the real function's values); axioms: none for 16 "
             "theorems, the Flocq/Reals axioms of the allow-list for C20_wellformed_total, "
-            "C20_accuracy_partial_standard, C20_accuracy, C20_powi_model_*",
+            "C20_accuracy_partial_standard, C20_accuracy, C20_powi_model_*, C20_fmt_prec_model_accurate, "
+            "C20_e10_model_exact, C20_fmt_exp14_model_correct/_shape, C20_parse_model_*, C20_powi_model_bounds, "
+            "C20_wellformed_exec(_pos), C20_total_exec, C20_exec_complete(_pos), C20_accuracy_exec(_pos), "
+            "C20_accuracy_exact_library",
     "design_ref": "DESIGN.md section 6 C20; notes/C20.md",
 }
 
@@ -303,6 +321,73 @@ def oracle_streams(h, rng, res, n):
     return total - sum(len(v) for v in mism.values())
 
 
+# --------------------------------------------------------------------------- the last hypothesis, on the real libm
+def log10_sane_stream(h, seed, res, thorough):
+    """LOG10SANE: the one hypothesis left in C20_accuracy_exec_pos / C20_wellformed_exec_pos / C20_exec_complete_pos
+    (log10_sane_pos: positive arguments, the only ones the code passes to log10), evaluated on
+    the real f64::log10:  k <= floor(log10 a) as i32 <= k + 1  where 10^k <= a < 10^(k+1) (k exact, by rational
+    arithmetic).  Own Rng (the other streams' inputs do not move).  A failure is a broken tie: the theorem's
+    hypothesis does not hold of the implementation's library."""
+    rng = c.Rng(seed ^ 0xC2010610)
+    width = 64 if thorough else 8
+    fam = {"pow10_neighbourhood": 0, "uniform_positive_bits": 0, "subnormal": 0, "standard_range": 0,
+           "powers_of_two": 0}
+    args = set()
+    for k in range(-323, 309):
+        pb = f2b(float("1e%d" % k))
+        for j in range(-width, width + 1):
+            b = pb + j
+            if 0 < b < 0x7ff0000000000000 and b not in args:
+                args.add(b)
+                fam["pow10_neighbourhood"] += 1
+    n = 40000 if thorough else 4000
+    for _ in range(n):
+        t = rng.below(4)
+        if t == 0:
+            b = rng.below(0x7ff0000000000000 - 1) + 1
+            key = "uniform_positive_bits"
+        elif t == 1:
+            b = rng.below((1 << 52) - 1) + 1
+            key = "subnormal"
+        elif t == 2:
+            b = ((1023 - 14 + rng.below(64)) << 52) | rng.below(1 << 52)
+            key = "standard_range"
+        else:
+            b = (rng.below(2046) + 1) << 52
+            key = "powers_of_two"
+        if b not in args:
+            args.add(b)
+            fam[key] += 1
+    args = sorted(args)
+    out = c.harness_lines_resilient(h, "c20-log10", [hx(b) for b in args])
+    bad = []
+    over = 0
+    for b, l in zip(args, out):
+        try:
+            v = b2f(int(l, 16))
+        except ValueError:
+            bad.append((hx(b), l, None))
+            continue
+        k = e10(frac_of_bits(b))
+        if v != v or v in (float("inf"), float("-inf")):
+            bad.append((hx(b), l, k))
+            continue
+        est = max(-2 ** 31, min(2 ** 31 - 1, math.floor(v)))
+        if not (k <= est <= k + 1):
+            bad.append((hx(b), l, k))
+        elif est == k + 1:
+            over += 1
+    if bad:
+        res.tie_broken("hypothesis log10_sane_pos of C20_accuracy_exec_pos / C20_exec_complete_pos fails on the real "
+                       "f64::log10 for %d of %d arguments" % (len(bad), len(args)),
+                       "first: arg bits=%s log10 bits=%s exact decade=%s" % bad[0])
+    res.streams["LOG10SANE"] = {"args": len(args), "families": fam, "failures": len(bad),
+                                "floor_is_decade_plus_one": over,
+                                "rule": "k <= floor(f64::log10(a)) <= k+1, k = exact floor(log10 a) by rationals; "
+                                        "10^k +- %d ulps for every k in -323..308 + seeded mix" % width}
+    return len(args) - len(bad)
+
+
 # --------------------------------------------------------------------------- DISPLAY correspondence
 def model_display(h, inputs):
     """Run the model on the inputs (list of bit patterns). Returns list of (unfixed, fixed) hex texts."""
@@ -376,6 +461,11 @@ def main(argv):
         validated += oracle_streams(h, rng, res, 3000 if thorough else 300)
     except c.BrokenTie as e:
         res.tie_broken(e.what, e.detail)
+    # ---- LOG10SANE: the remaining hypothesis of the *_exec theorems on the real libm log10
+    try:
+        validated += log10_sane_stream(h, seed, res, thorough)
+    except c.BrokenTie as e:
+        res.tie_broken(e.what, e.detail)
 
     # ---- inputs: corpus, boundaries, random
     corpus = load_corpus()
@@ -409,6 +499,47 @@ def main(argv):
             res.violation("format of a list/record element differs from format_display_number(x)",
                           dict(replay_dict(b, txt(f), txt(want)), stream="c20-fmtlist"))
             break
+
+    # ---- history independence: the display text of a collection does not depend on whether the SAME object was
+    # rendered before by another function (to_string / join / string concatenation render plainly, format renders
+    # numbers in display form), for collections below and above small-size thresholds.  Round 4, seed C20-7: a
+    # render cache for lists / records of 16 or more elements keyed without the display flag.
+    def numsrc(b):
+        x = b2f(b)
+        if x != x:
+            return "(0/0)"
+        if x in (float("inf"), float("-inf")):
+            return "(1/0)" if x > 0 else "(-1/0)"
+        return "(%s)" % repr(x)
+    hist = []
+    pool = [b for b in (corpus + bnd)[:400]]
+    for n in (1, 3, 15, 16, 17, 40):
+        for k in range(3 if not thorough else 12):
+            xs = [numsrc(pool[(7 * k + 13 * i + n) % len(pool)]) for i in range(n)]
+            lit = "[" + ", ".join(xs) + "]"
+            rec = "{" + ", ".join("k%d: %s" % (i, x) for i, x in enumerate(xs)) + "}"
+            for obj in (lit, rec):
+                hist.append(("plain-then-format", "v = %s\nfresh = format(\"{}\", %s)\ns1 = to_string(v)\ns2 = \"\" + v\n"
+                             "after = format(\"{}\", v)\n[fresh == after, fresh, after]" % (obj, obj)))
+                hist.append(("format-then-plain", "v = %s\nfresh = to_string(%s)\ns1 = format(\"{} {}\", v, v)\n"
+                             "after = to_string(v)\n[fresh == after, fresh, after]" % (obj, obj)))
+            hist.append(("join-then-format", "v = %s\nfresh = format(\"{}\", %s)\ns1 = join(v, \";\")\nafter = format(\"{}\", v)\n"
+                         "[fresh == after, fresh, after]" % (lit, lit)))
+    houts = c.harness_lines_resilient(h, "eval", [c.hexs(p_) for _, p_ in hist])
+    hbad = 0
+    for (kind, prog), o in zip(hist, houts):
+        r = o.split(";ENV:")[0].split("|")[-1]
+        if r.startswith("OK:L[T,"):
+            continue
+        if r.startswith("ERR"):
+            continue            # e.g. "" + record is a type error: nothing was rendered twice
+        hbad += 1
+        if hbad <= 3:
+            res.violation("the text of a collection depends on how the same object was rendered before (%s)" % kind,
+                          {"kind": "impl-law", "program": prog, "observed": r, "expected": "OK:L[T,..] (fresh == after)"})
+    res.streams["HISTORY"] = {"programs": len(hist), "violations": hbad,
+                              "kinds": {k_: sum(1 for kk, _ in hist if kk == k_) for k_ in sorted({kk for kk, _ in hist})},
+                              "sizes": [1, 3, 15, 16, 17, 40]}
 
     # ---- model
     mism = []
@@ -520,9 +651,13 @@ def main(argv):
                              "failures_outside": len(fails)}
     res.assumptions = [
         "library oracles (f64::log10, powi, {:.N}, {:.14e}, parse::<f64>) are Section variables in the theorems; "
-        "their executable Gallina models are validated by the ORACLE streams only",
-        "15-significant-digit accuracy is proved only relative to correctness specifications of the library calls "
-        "(stated as hypotheses in C20_accuracy_partial_*); on the implementation it is decided by exact-rational search",
+        "their executable Gallina models are proved to meet the stated specifications (C20_*_model_*) and are "
+        "compared with the Rust std functions by the ORACLE streams - that Rust's std/libm behave like the models is "
+        "tested, not proved",
+        "15-significant-digit accuracy is proved for the executable model (C20_accuracy_exec: only hypothesis "
+        "log10_sane on libm's log10; C20_accuracy_exact_library: none) and, for arbitrary oracles, relative to "
+        "correctness specifications of the library calls (C20_accuracy); on the implementation it is decided by "
+        "exact-rational search",
     ]
     return res.finish()
 
